@@ -1,6 +1,6 @@
 \* core level, spec -> code: every distinct state printed with the calls that reach it
 CONSTANTS
-  Cores <- CoresQuick
+  Cores <- CoresEmit
   Designs <- NoTriples
   Growths <- G3
   MaxNonUnit = 1
